@@ -48,6 +48,11 @@ func genC14(r *kernel.Rand, sc *kernel.Scenario, run int) {
 			sc.Steps = append(sc.Steps, valStep(r, kinds[1+r.Intn(len(kinds)-1)].name, 0, r.Bool(0.1)))
 		}
 	}
+	if r.Bool(0.4) {
+		// the stream reaches the decoders in pieces (a slow link): never more
+		// than this many bytes per Read
+		sc.Config["chunk"] = int64([]int{1, 1, 2, 3, 7, 64}[r.Intn(6)])
+	}
 }
 
 // checkDecoded applies the per-value oracles shared by both serializers.
@@ -132,6 +137,10 @@ func (e Engine) execC14(t *testing.T, sc *kernel.Scenario, res *kernel.Result, t
 		ends[i] = len(stream)
 	}
 	l := Preload(stream, nil)
+	l.B.SetSchedule(Schedule{Every: int(sc.Config["chunk"])})
+	if sc.Config["chunk"] > 0 {
+		res.Count("fault.stream-delivered-in-pieces", 1)
+	}
 	nativeDecoded := make([]any, len(vals))
 	for i, v := range vals {
 		start := prevEnd(ends, i)
@@ -193,6 +202,7 @@ func (e Engine) execC14(t *testing.T, sc *kernel.Scenario, res *kernel.Result, t
 		pidx = append(pidx, i)
 	}
 	pl := Preload(pstream, nil)
+	pl.B.SetSchedule(Schedule{Every: int(sc.Config["chunk"])})
 	for k, i := range pidx {
 		v := vals[i]
 		start := prevEnd(pends, k)
